@@ -463,13 +463,14 @@ func (e *Engine) yamlUnmarshal(fn *ssa.Function, args []Value, st *State) Value 
 				continue
 			}
 			mo := newObj(stt.Field(i).Type())
-			st.heap[mo] = &MapC{Ents: []MEnt{{P: TrueT, K: env.Typ, V: zero(stt.Field(i).Type().Underlying().(*types.Map).Elem())}}}
-			set := And(a.G, Not(env.YamlErr), Not(Eq(env.Typ, StrC(""))))
+			hasType := Not(Eq(env.Typ, StrC("")))
+			st.heap[mo] = &MapC{Ents: []MEnt{{P: hasType, K: env.Typ, V: zero(stt.Field(i).Type().Underlying().(*types.Map).Elem())}}}
+			set := And(a.G, Not(env.YamlErr), Or(hasType, env.Empty))
 			nv := mergeV(st, set, &MapV{Alts: []MAlt{{G: TrueT, O: mo}}}, sv.F[i])
 			st.heap[a.O] = setPath(cell, append(append([]int(nil), a.Path...), i), nv)
 		}
 	}
-	e.stubs["yaml.Unmarshal (environment: one `types` entry or a parse error)"]++
+	e.stubs["yaml.Unmarshal (environment: one `types` entry, `types: []`, no `types` key, or a parse error)"]++
 	return mergeV(st, env.YamlErr, e.opaqueError(st, "yaml: parse error"), zero(errT))
 }
 
